@@ -29,10 +29,10 @@ MANIFEST = {
 
 EM_KIND = {0: "asm", 1: "asm", 2: "bld", 3: "cmp"}
 
-# Open finding C16-K1 (known_findings.json): a second finalize() on a Compiler whose functions were already allocated normally
-# fails with InvalidState, but for this pair of functions the allocator follows a wild RAWorkReg pointer. The generators never
-# re-finalize such a Compiler (it is API misuse, outside the property's quantifier); the witness is replayed on every run.
-REFINALIZE = ["world dynamic", "init x64", "attach 3", "prog 3 func 699332340 34", "finalize 3", "prog 3 func 182628915 10", "finalize 3"]
+# Finding C16-K1 / fixes/C16-2.patch: label nodes keep their RABlock* pass data after the allocator's pass arena is reset, so a
+# second run_passes()/finalize() on the same Compiler follows dead pointers (SEGV, wild RAWorkReg*). With C16-2 the second
+# finalize fails cleanly (LabelAlreadyBound) and no node carries pass data between API calls. The witness is replayed first.
+REFINALIZE = ["world dynamic", "init x64", "attach 3", "prog 3 func 695425564 13", "finalize 3", "finalize 3", "dump"]
 
 
 def generate():
@@ -51,7 +51,8 @@ class Tracker:
     def __init__(self):
         self.world()
 
-    def world(self):
+    def world(self, fam="x86"):
+        self.fam = fam
         self.init = False
         self.arch = "x64"
         self.attached = []
@@ -80,7 +81,7 @@ class Tracker:
         elif k in ("reinit", "reset"):
             self.pending = set()
         if k == "world":
-            self.world()
+            self.world("a64" if "a64" in w[1:] else "x86")
         elif k == "init":
             if not self.init:
                 self.init = True
@@ -100,7 +101,7 @@ class Tracker:
                     self.cursec[i] = 0
         elif k == "attach":
             i = int(w[1])
-            if self.init and i not in self.attached:
+            if self.init and i not in self.attached and ((self.arch == "a64") == (self.fam == "a64")):
                 self.attached.append(i)
                 self.cursec[i] = 0
         elif k == "detach":
@@ -181,7 +182,7 @@ def gen_code_ops(rng, tr, n, modelled=True, allow_err=False):
             emit("cmt %d" % i)
         elif r < 0.91 and kind == "cmp":
             emit(rng.choice(("vreg %d", "jann %d")) % i)
-        elif r < 0.94 and kind != "asm" and not (kind == "cmp" and tr.cc_done):
+        elif r < 0.94 and kind != "asm":
             emit("finalize %d" % i)
         elif allow_err and r < 0.97:
             emit("err %d %d" % (i, rng.choice((0, 2)) if modelled else rng.randrange(3)))
@@ -200,7 +201,7 @@ def gen_history(rng, tr, n, modelled=True):
         r = rng.random()
         if not tr.init:
             if r < 0.75:
-                emit("init %s" % rng.choice(("x64", "x64", "x86")))
+                emit("init %s" % (rng.choice(("a64", "a64", "a64", "x64")) if tr.fam == "a64" else rng.choice(("x64", "x64", "x86", "x64", "a64"))))
             elif r < 0.85:
                 emit("attach %d" % rng.randrange(4))          # fails: InvalidArch
             elif r < 0.92:
@@ -228,8 +229,6 @@ def gen_history(rng, tr, n, modelled=True):
             emit("heap %d" % rng.randrange(1 << 20))
         elif not modelled and r < 0.72 and tr.attached:
             i = rng.choice(tr.attached)
-            if EM_KIND[i] == "cmp" and tr.cc_done:
-                continue
             if EM_KIND[i] == "cmp" and rng.random() < 0.7:
                 emit("prog %d func %d %d" % (i, rng.randrange(1 << 30), rng.randrange(4, 40)))
                 if rng.random() < 0.6:
@@ -245,11 +244,15 @@ def gen_history(rng, tr, n, modelled=True):
 def gen_case(rng, modelled, hist_len):
     """One comparison: (ops of the recycled run, ops of the fresh run); both end with `dump`."""
     tr = Tracker()
-    world_r = "world %s" % rng.choice(("dynamic", "static 4096", "static 64", "static 40000"))
+    fam = "a64" if rng.random() < 0.35 else "x86"
+    fam_w = " a64" if fam == "a64" else ""
+    good_arch = "a64" if fam == "a64" else "x64"
+    world_r = "world %s%s" % (rng.choice(("dynamic", "static 4096", "static 64", "static 40000")), fam_w)
+    tr.apply(world_r)
     hist = gen_history(rng, tr, hist_len, modelled)
     kind = rng.random()
-    if not modelled and tr.init and tr.arch != "x64":
-        kind = 0.5              # `prog` emits x86-64 code: never keep a 32-bit holder through reinit
+    if tr.init and ((tr.arch == "a64") != (fam == "a64") or (not modelled and tr.arch == "x86")):
+        kind = 0.5              # a holder of the other family (nothing can attach) or a 32-bit holder for `prog`: reset, do not reinit
     tail = []
 
     def emit(op):
@@ -263,7 +266,7 @@ def gen_case(rng, modelled, hist_len):
             emit("reset %s" % rng.choice(("soft", "hard")))
         if rng.random() < 0.3:
             emit("heap %d" % rng.randrange(1 << 20))
-        emit("init %s" % (rng.choice(("x64", "x64", "x86")) if modelled else "x64"))
+        emit("init %s" % (good_arch if (fam == "a64" or not modelled) else rng.choice(("x64", "x64", "x86"))))
         order = rng.sample(range(4), rng.randrange(1, 5))
         for i in order:
             emit("attach %d" % i)
@@ -297,7 +300,7 @@ def gen_case(rng, modelled, hist_len):
             if EM_KIND[i] != "asm":
                 prog.append("finalize %d" % i)
     del state
-    fresh_cfg = ["world %s" % rng.choice(("dynamic", "static 4096", "dynamic")), "init %s" % arch]
+    fresh_cfg = ["world %s%s" % (rng.choice(("dynamic", "static 4096", "dynamic")), fam_w), "init %s" % arch]
     if rng.random() < 0.3:
         fresh_cfg.append("hlogger on")
     for i in order:
@@ -432,6 +435,19 @@ def run(res):
 
     # -- L2b correspondence + L3 monitor ------------------------------------------------------------
     h = vlib.build_harness("c16")
+    # -- dead references after run_passes (C16-K1 / C16-2): replay the witness ----------------------------
+    o, krc, kerr = run_stream([str(h)], REFINALIZE)
+    res.coverage["refinalize_witness"] = "aborts rc=%d" % krc if krc != 0 else "answers %s" % (o[-2:-1] or ["?"])[0]
+    if krc != 0:
+        first = [l.strip() for l in kerr.splitlines() if "runtime error" in l or "ERROR: AddressSanitizer" in l or l.startswith("SUMMARY")][:2]
+        res.violation("second finalize() on a Compiler that already ran its passes follows dead pass data instead of failing: %s" % " | ".join(first)[:500],
+                      {"ops": REFINALIZE, "stderr": kerr[-2000:]}, True, key="abort:refinalize")
+        return
+    v = monitor([(o[-1], o[-1])])[0]
+    if not v.startswith("good"):
+        res.violation("after finalize() the Compiler's nodes still reference the reset pass arena: %s" % v,
+                      {"ops": REFINALIZE, "monitor": v}, True, key="deadref")
+        return
     n_mod = 500 if quick else 6000
     n_diff = 260 if quick else 3500
     if broken:
@@ -515,14 +531,6 @@ def run(res):
         res.coverage["heap_perturbation_runs"] = 3 * len(sub)
     except vlib.BuildError:
         raise
-
-    # -- open finding C16-K1: replay the witness -------------------------------------------------------
-    o, krc, kerr = run_stream([str(h)], REFINALIZE)
-    res.coverage["refinalize_witness"] = "aborts rc=%d" % krc if krc != 0 else "answers %s" % (o[-1:] or ["?"])[0]
-    if krc != 0:
-        first = [l for l in kerr.splitlines() if "runtime error" in l or "SUMMARY" in l][:2]
-        res.violation("second finalize() on a Compiler that already ran its passes crashes instead of failing: %s" % " ".join(first)[:400],
-                      {"ops": REFINALIZE, "stderr": kerr[-2000:]}, True, key="abort:refinalize")
 
     # -- coverage ---------------------------------------------------------------------------------
     kinds = {}
